@@ -375,7 +375,7 @@ completer_thread(void *arg)
 	case K_PROVIDER:
 		for (int round = 0; round < 3; round++) {
 			for (int i = 0; i < cx->nrec; i++) {
-				if (vf_chance(&p->rng, 2, 3)) prov_complete(&cx->rec[i]);
+				if (cx->rec[i].kind == K_PROVIDER && vf_chance(&p->rng, 2, 3)) prov_complete(&cx->rec[i]);
 			}
 			vf_usleep((int) vf_below(&p->rng, 1500));
 		}
@@ -536,9 +536,24 @@ run_case(long idx, vf_rng *r)
 
 	// records and plans
 	int batch_timeout = base_ms; // equal deadlines form expiry batches
+	bool mixed_batch = (cx->kind == K_PROVIDER) && cx->nrec >= 2 && vf_chance(r, 1, 2);
+	if (mixed_batch && vf_chance(r, 2, 3)) {
+		// hold a canceller between "cancel function swapped out" and the
+		// call of that function while the expire loop works through the batch
+		vf_pt_off();
+		vf_pt_jitter(vf_rand(r), 5, 50);
+		target = NNI_VP_AIO_ABORT_UNLOCKED;
+		pert   = 2;
+		vf_pt_target(target, 1000, 800, (int) vf_range(r, 1500, 5000));
+	}
 	for (int i = 0; i < cx->nrec; i++) {
 		arec *a = &cx->rec[i];
 		a->kind = cx->kind;
+		if (mixed_batch) {
+			// one expiry batch holding provider operations (whose cancel
+			// functions take a while) AND sleeps with the same deadline
+			a->kind = (i & 1) ? K_SLEEP : K_PROVIDER;
+		}
 		a->idx  = i;
 		a->cx   = cx;
 		if (nng_aio_alloc(&a->aio, cb, a) != 0) vf_harness_fail("aio alloc");
@@ -549,12 +564,23 @@ run_case(long idx, vf_rng *r)
 		a->resubmits_left   = vf_chance(r, 1, 2) ? (int) vf_below(r, 4) : 0;
 		a->resubmit_timeout = vf_chance(r, 1, 2) ? 10000 : (int) vf_range(r, 1, 30);
 		a->cancel_delay_us  = vf_chance(r, 1, 3) ? (int) vf_range(r, 100, 3000) : 0;
+		if (mixed_batch) {
+			// same deadline for everybody; providers cancel slowly; the sleeps
+			// are cancelled / stopped right around the deadline
+			atomic_store(&a->timeout_ms, a->kind == K_PROVIDER ? batch_timeout : -1);
+			atomic_store(&a->sleep_ms, batch_timeout);
+			a->cancel_delay_us = a->kind == K_PROVIDER ? (int) vf_range(r, 300, 3000) : 0;
+		}
 		p.act[i]            = (int) vf_below(r, A_NACTS);
 		if (p.act[i] == A_CLOSE && (cx->kind == K_SLEEP || cx->kind == K_PROVIDER)) p.act[i] = A_CANCEL;
 		// around the nominal instant (or at once / pre-start)
 		int asel = (int) vf_below(r, 5);
 		p.act_at_us[i] = asel == 0 ? 0 : asel == 1 ? (int) vf_below(r, 300) : (int) (base_ms * 1000 + (int) vf_below(r, 3000) - 1500);
 		if (p.act_at_us[i] < 0) p.act_at_us[i] = 0;
+		if (mixed_batch && a->kind == K_SLEEP) {
+			p.act[i]       = vf_chance(r, 2, 3) ? A_CANCEL : A_STOP;
+			p.act_at_us[i] = base_ms * 1000 + (int) vf_below(r, 2500);
+		}
 		if (tmo < 0 && p.act[i] == A_NONE && cx->kind != K_SLEEP && cx->kind != K_DIAL) {
 			// nothing would end it: give it a timeout (the harness cancels at the end anyway)
 			atomic_store(&a->timeout_ms, (int) vf_range(r, 5, 60));
